@@ -41,7 +41,8 @@ func checkC14(c *km.Ctx) {
 	prLimiter := primErrNil("LimiterOK", RS+"checkPasswordAttemptLimit", 0)
 	for _, cs := range c.G.Callers[cup] {
 		st := c.F.At(cs.Instr)
-		ok := st.All(func(k km.Conj) bool { return s.Holds(k, prLimiter) })
+		// here, or - when the lookup sits in a helper - at every call of that helper
+		ok, _ := s.HoldsOnAllPaths(cs.Instr, allPrims(s, prLimiter), map[*ssa.Function]bool{}, 3)
 		r.Add("R-C14-1", km.FuncName(cs.Caller), "backend lookup behind the limiter", posOf(c, cs.Instr), "checkPasswordAttemptLimit(...) == nil on every path to checkUserPassword", clipS(st.String(), 200), ok)
 	}
 	// who may call the backend interface
